@@ -459,6 +459,7 @@ def run(ctx):
     sub.no_share = True
     sub.inline_set = ctx.inline_set
     sub.desugar = bool(getattr(c10, "DESUGAR", False))
+    sub.splice = getattr(c10, "SPLICE_LOOP_HELPERS", False)
     try:
         c10.run(sub)
         shared = [r for r in sub.records if r.rule in ("D3-POSITIONS", "D2-NAME-RAW", "D3-KEYWORD")]
